@@ -130,9 +130,9 @@ class Pusher(AbstractMujocoEnv[Float[Array, "..."], Float[Array, "..."]]):
     ) -> Float[Array, "..."]:
         data = state.sim_state
 
-        tips_arm = data.xipos[self.tips_arm_body_id]
-        obj = data.xipos[self.object_body_id]
-        goal = data.xipos[self.goal_body_id]
+        tips_arm = data.xpos[self.tips_arm_body_id]
+        obj = data.xpos[self.object_body_id]
+        goal = data.xpos[self.goal_body_id]
 
         return jnp.concatenate(
             (
@@ -154,9 +154,9 @@ class Pusher(AbstractMujocoEnv[Float[Array, "..."], Float[Array, "..."]]):
     ) -> Float[Array, ""]:
         data = next_state.sim_state
 
-        tips_arm = data.xipos[self.tips_arm_body_id]
-        obj = data.xipos[self.object_body_id]
-        goal = data.xipos[self.goal_body_id]
+        tips_arm = data.xpos[self.tips_arm_body_id]
+        obj = data.xpos[self.object_body_id]
+        goal = data.xpos[self.goal_body_id]
 
         vec_near = obj - tips_arm
         vec_dist = obj - goal
@@ -180,9 +180,9 @@ class Pusher(AbstractMujocoEnv[Float[Array, "..."], Float[Array, "..."]]):
     ) -> dict:
         data = next_state.sim_state
 
-        tips_arm = data.xipos[self.tips_arm_body_id]
-        obj = data.xipos[self.object_body_id]
-        goal = data.xipos[self.goal_body_id]
+        tips_arm = data.xpos[self.tips_arm_body_id]
+        obj = data.xpos[self.object_body_id]
+        goal = data.xpos[self.goal_body_id]
 
         vec_near = obj - tips_arm
         vec_dist = obj - goal
